@@ -39,6 +39,7 @@ M0(c) ==
     ev       |-> NoEval,
     provided |-> {},            \* <<step, stage>>
     provObs  |-> {},            \* <<step, path, value>> of accepted starting inputs
+    provOff  |-> {},            \* steps whose evaluated enabling input says "not enabled" (whatever the step then reports)
     fin      |-> {},            \* <<step, stage>> reported finished
     imp      |-> {},            \* <<step, stage>> declared impossible
     completed|-> {},            \* steps that reported completion
@@ -209,7 +210,10 @@ OnProvide(mm, e) ==
       po == IF e.stage = "starting"
               THEN {<<e.step, Strip(o[1], 1), o[2]>> : o \in {x \in mm.ev.obs : x[1] # <<>> /\ x[1][1] = "input"}}
               ELSE {}
-  IN  VS([mm EXCEPT !.provided = @ \cup {<<e.step, e.stage>>}, !.provObs = @ \cup po], c1 \cup c2 \cup c3)
+      \* the value of `enabled` as the run loop evaluated it from the workflow text (boolean forms of the YAML layer)
+      off == e.stage = "enabling" /\ \E o \in mm.ev.obs : o[1] = <<"enabled">> /\ o[2] \in {"false", "False", "FALSE", "no", "off", "0", "n", "disable", "disabled"}
+  IN  VS([mm EXCEPT !.provided = @ \cup {<<e.step, e.stage>>}, !.provObs = @ \cup po,
+                    !.provOff = IF off THEN @ \cup {e.step} ELSE @], c1 \cup c2 \cup c3)
 
 OnOutSend(mm, e) ==
   LET node == OutputNode(e.id)
@@ -235,7 +239,7 @@ OnErrPush(mm, e) ==
 \* ---- step-side events ------------------------------------------------------------------------------------------
 \* Engine.tla's invariant StateSlotTruthful evaluated on the recorded execution: a plugin step never declares itself
 \* waiting for an input that has been provided and not yet taken (the fallback detector trusts that declaration)
-InputStages == {"deploy", "enabling", "starting"}
+InputStages == {"deploy", "enabling", "starting", "execute"}   \* plugin and loop steps
 OnSSet(mm, e) ==
   LET mm1 == [mm EXCEPT !.sst = {x \in @ : x[1] # e.step} \cup {<<e.step, e.stage>>}]
   IN  IF e.state = "waiting_for_input" /\ e.stage \in InputStages /\ <<e.step, e.stage>> \in mm.slots
@@ -273,7 +277,7 @@ OnXExecStart(mm, e) ==
       want == {<<x[2], x[3]>> : x \in {y \in mm.provObs : y[1] = s}}
       enabledTrue == <<StageOutNode(s, "enabling", "resolved"), <<"enabled">>, "true">> \in mm.data
       c1 == IF <<s, "starting">> \notin mm.provided THEN {<<"C04", "plugin-executed-without-provided-input", s>>} ELSE {}
-      c2 == IF ~enabledTrue THEN {<<"C04", "plugin-executed-without-being-enabled", s>>} ELSE {}
+      c2 == IF ~enabledTrue \/ s \in mm.provOff THEN {<<"C04", "plugin-executed-without-being-enabled", s>>} ELSE {}
       c3 == IF <<s, "starting">> \in mm.provided /\ obs # want THEN {<<"C02", "plugin-received-input-different-from-provided", s>>} ELSE {}
   IN  VS([mm EXCEPT !.plugLive = @ \cup {s}], c1 \cup c2 \cup c3)
 
